@@ -978,7 +978,8 @@ def __fixXmlPart(xmlpart):
     import re
     root = re.search(u'<(?![?!])[^\\s/>]+', xmlpart)        # name of the document element
     if root is None: return xmlpart
-    roottag = xmlpart[root.end():xmlpart.find(u'>', root.end())]
+    # up to the first '>' outside a quoted attribute value
+    roottag = re.match(u'(?:[^>"\']|"[^"]*"|\'[^\']*\')*', xmlpart[root.end():]).group(0)
     for prefix in requestedPrefixes:
         if not re.search(u'\\sxmlns:%s\\s*=' % prefix, roottag):
             ###########################################
